@@ -1,3 +1,19 @@
-(* Engine entry points for C14: run_c14 sub-op case.  (stub until the property's model exists) *)
-From Pan Require Import Base.Common Base.Sx.
-Definition run_c14 (sub : Z) (x : sx) : sx := SL [SZ (-1)].
+(* Engine entry point for C14: the merge matcher driven by a finite table of combined scores. *)
+From Pan Require Import Base.Common Base.Sx Model.MetricTable Model.Matcher Model.Merge Run.Codec Run.R03.
+
+Fixpoint zs_eqb (a b : list Z) : bool :=
+  match a, b with [] , [] => true | x :: a', y :: b' => (x =? y) && zs_eqb a' b' | _, _ => false end.
+Definition table_su (tbl : list (Z * list Z * Q)) (r : Z) (ps : list Z) : Q :=
+  match find (fun e => (fst (fst e) =? r) && zs_eqb (snd (fst e)) ps) tbl with
+  | Some e => snd e | None => (-7 # 1)%Q end.
+Definition dec_tbl (s : sx) : list (Z * list Z * Q) :=
+  map (fun e => (sZ (sNth 0 e), sZs (sNth 1 e), sQ (sNth 2 e))) (sL s).
+
+(* sub 1: (decr thr cands table) -> ((pred ref)...) ((ref score)...) *)
+Definition run_merge (x : sx) : sx :=
+  let decr := sB (sNth 0 x) in let thr := sQ (sNth 1 x) in
+  let st := merge_match (better_eq decr) Qeq_bool (fun s => beats decr s thr) (table_su (dec_tbl (sNth 3 x)))
+              (map dec_cand (sL (sNth 2 x))) in
+  SL [SL (map ofZZ (ms_map st)); SL (map (fun e => SL [SZ (fst e); ofQ (snd e)]) (ms_score st))].
+
+Definition run_c14 (sub : Z) (x : sx) : sx := if sub =? 1 then run_merge x else SL [SZ (-1)].
